@@ -1,6 +1,7 @@
 package rules
 
 import (
+	"go/constant"
 	"fmt"
 	"go/token"
 	"go/types"
@@ -464,6 +465,128 @@ func c20(r *core.Report) {
 			}
 			r.Check(okAll, "C20-ACCEPT-TRUTH", core.FnName(wa), p.Pos(wa.Pos()), "with no eviction the put is reported as accepted",
 				"wasAccepted can report 'not accepted' although nothing was evicted: a responder that overwrote a key it already held (Update returns (nil, false)) denies having stored the value, DHTPut under-counts and fails although enough nodes hold it")
+		}
+	}
+
+	// ---- C20-PUT-RESULT (after seed C20-s7): wasAccepted reads "nothing evicted" as "stored". That is only right if
+	// the cache reports a refusal some other way. Cache.Put is therefore a pure delegation to Cache.Update (no result
+	// fabricated in front of it), and Update returns the constant (nil, false) — indistinguishable from an overwrite —
+	// only on its two audited refusal edges: max == 0 (a node without a data cache) and evict() == nil (every bucket
+	// at its minimum; unreachable for the data cache, which is built with minPerBucket 0 — checked below).
+	r.Rule("C20-PUT-RESULT", "Cache.Put passes Update's results through; Update fabricates (nil,false) only on the audited refusal edges; the data cache has minPerBucket 0", 4)
+	{
+		put := needFn(r, "p/kademlia", "Cache.Put")
+		upd := needFn(r, "p/kademlia", "Cache.Update")
+		evictFn := needFn(r, "p/kademlia", "Cache.evict")
+		newCache := needFn(r, "p/kademlia", "NewCache")
+		if put != nil && upd != nil && evictFn != nil && newCache != nil {
+			r.Analysed(put)
+			r.Analysed(upd)
+			calls := core.CallsToFn(put, upd)
+			okPut := len(calls) == 1
+			for _, ret := range core.Returns(put) {
+				for i := 0; i < 2 && okPut; i++ {
+					for _, v := range core.ReturnValues(ret, i) {
+						ex, isE := v.(*ssa.Extract)
+						if !isE || ex.Index != i || len(calls) != 1 || ex.Tuple != calls[0].Value() {
+							okPut = false
+						}
+					}
+				}
+			}
+			r.Check(okPut, "C20-PUT-RESULT", core.FnName(put), p.Pos(put.Pos()), "every return passes the results of the one Update call through",
+				"Cache.Put can return a result that does not come from Update: a refusal fabricated here as (nil, false) is read by wasAccepted as 'stored', the responder answers Accepted for a value it does not hold and DHTPut over-counts")
+			for _, ret := range core.Returns(upd) {
+				if len(ret.Results) != 2 {
+					continue
+				}
+				if upd.Recover != nil && ret.Block() == upd.Recover {
+					continue
+				}
+				allConst := func(vs []ssa.Value, want func(*ssa.Const) bool) bool {
+					for _, v := range vs {
+						c, isC := v.(*ssa.Const)
+						if !isC || !want(c) {
+							return false
+						}
+					}
+					return len(vs) > 0
+				}
+				if !allConst(core.ReturnValues(ret, 0), func(c *ssa.Const) bool { return c.IsNil() }) ||
+					!allConst(core.ReturnValues(ret, 1), func(c *ssa.Const) bool { return c.Value != nil && c.Value.Kind() == constant.Bool && !constant.BoolVal(c.Value) }) {
+					continue
+				}
+				why := ""
+				for b := ret.Block(); b != nil && why == ""; b = b.Idom() {
+					if b == ret.Block() {
+						continue
+					}
+					iff, isIf := b.Instrs[len(b.Instrs)-1].(*ssa.If)
+					if !isIf {
+						continue
+					}
+					if bo, isB := iff.Cond.(*ssa.BinOp); isB && bo.Op == token.EQL {
+						if f, _ := core.FieldRead(core.Through(bo.X)); f != nil && f.Name() == "max" {
+							if k, isK := core.ConstInt(bo.Y); isK && k == 0 && b.Succs[0].Dominates(ret.Block()) {
+								why = "max == 0: the cache stores nothing"
+							}
+						}
+					}
+					if x, isEq, ok := core.NilCheck(iff.Cond); ok {
+						fromEvict := false
+						for _, rv := range core.ReachingValues(core.Through(x)) {
+							if c, isC := core.Through(rv).(*ssa.Call); isC {
+								if sc := core.StaticCallee(c.Common()); sc != nil && (sc == evictFn || (sc.Origin() != nil && sc.Origin() == evictFn) || (evictFn.Origin() != nil && sc.Origin() == evictFn.Origin())) {
+									fromEvict = true
+								}
+							}
+						}
+						if fromEvict {
+							t := b.Succs[0]
+							if !isEq {
+								t = b.Succs[1]
+							}
+							if t.Dominates(ret.Block()) {
+								why = "evict() == nil: every bucket at its minimum"
+							}
+						}
+					}
+				}
+				r.Check(why != "", "C20-PUT-RESULT", core.FnName(upd)+" return (nil,false)", p.Pos(ret.Pos()), "audited refusal edge: "+why,
+					"Cache.Update returns the constant (nil, false) on an edge that is not one of the audited refusals: wasAccepted reads it as 'stored'")
+			}
+			// the data cache cannot take the evict()==nil refusal: minPerBucket is the constant 0 where DHTNode builds it
+			nData := 0
+			for _, fn := range p.ModFuncs {
+				for _, ci := range core.Calls(fn, func(ci ssa.CallInstruction) bool {
+					c := core.StaticCallee(ci.Common())
+					return c != nil && (c == newCache || c.Origin() == newCache || (newCache.Origin() != nil && c.Origin() == newCache.Origin()))
+				}) {
+					// the call whose result is stored into a field named data
+					isData := false
+					for _, ref := range *ci.Value().Referrers() {
+						if u, isU := ref.(*ssa.UnOp); isU && u.Op == token.MUL {
+							for _, r2 := range *u.Referrers() {
+								if st, isSt := r2.(*ssa.Store); isSt {
+									if f, _ := core.FieldOfAddr(st.Addr); f != nil && f.Name() == "data" {
+										isData = true
+									}
+								}
+							}
+						}
+					}
+					if !isData {
+						continue
+					}
+					nData++
+					k, isK := core.ConstInt(ci.Common().Args[2])
+					r.Check(isK && k == 0, "C20-PUT-RESULT", core.FnName(fn)+" NewCache(data)", p.Pos(ci.Pos()), "minPerBucket is the constant 0: evict() finds a victim whenever the cache is over capacity",
+						"the data cache is built with a per-bucket minimum: Update can refuse a new value as (nil, false) and the responder still answers Accepted")
+				}
+			}
+			if nData == 0 {
+				r.Fail("C20-PUT-RESULT: the NewCache call that builds DHTNode.data was not found (anchor stale)")
+			}
 		}
 	}
 
